@@ -110,6 +110,14 @@ func (mux *abciMux) OfferSnapshot(req types.RequestOfferSnapshot) types.Response
 		)
 		return types.ResponseOfferSnapshot{Result: types.ResponseOfferSnapshot_REJECT}
 	}
+	// Root version, type and namespace must be those of the consensus state at the snapshot height.
+	if cp.Root.Version != req.Snapshot.Height || cp.Root.Type != storageApi.RootTypeState || !cp.Root.Namespace.Equal(&mux.state.stateRoot.Namespace) {
+		mux.logger.Warn("received snapshot with mismatching root",
+			"height", req.Snapshot.Height,
+			"root", cp.Root,
+		)
+		return types.ResponseOfferSnapshot{Result: types.ResponseOfferSnapshot_REJECT}
+	}
 
 	// Snapshot seems correct (e.g., it is for the correct root), start the restoration process.
 	if err := mux.state.storage.NodeDB().StartMultipartInsert(cp.Root.Version); err != nil {
